@@ -294,9 +294,9 @@ class LRUCache(_CacheBase):
 
     def get(self, key: Hashable) -> Any:
         """Get a value from the cache by key."""
-        if key not in self._cache_dict:
-            return None
         with self._cache_lock:
+            if key not in self._cache_dict:
+                return None
             value = self._cache_dict[key]
             # Move key to back of queue
             self._cache_queue.remove(key)
